@@ -23,8 +23,8 @@ from harness import net_common, net_driver as nd
 def run(ctx):
     ctx.mc("net", "IOStreamContract", "MC_IOStreamWrite.cfg",
            overrides=ctx.pick({}, {"MaxWrites": 5, "MaxCredit": 12}),
-           required_actions=["Write", "Grant", "WCond", "CloseLocal"])
-    ctx.mc("net", "StreamBuffer", "MC_StreamBuffer.cfg", required_actions=["DoAppend", "Peek", "Advance"])
+           required_actions=["Write", "Grant", "WCond", "CloseLocal"], timeout=ctx.pick(900, 3000))
+    ctx.mc("net", "StreamBuffer", "MC_StreamBuffer.cfg", required_actions=["DoAppend", "Peek", "Advance"], timeout=ctx.pick(900, 3000))
     L = ctx.pick(4, 5)
     variants = ctx.pick(nd.VARIANTS[:3], nd.VARIANTS)
     net_common.s2c_stream(ctx, "GenG_IOStreamWrite.cfg", {"L": L}, variants,
